@@ -25,15 +25,19 @@ def equal_events_case(acc, rnd, pid='C05'):
     sc = Statechart('equal events')
     sc.add_state(CompoundState('root', initial='a'), None)
     sc.add_state(BasicState('a'), 'root')
-    d_int = rnd.choice((0, 1, 2, 2))
+    ticking = rnd.random() < 0.35       # a clock that grows at every reading: the time of a step is what Interpreter.time says afterwards
+    d_int = rnd.choice((0.125, 0.125, 0.25, 0)) if ticking else rnd.choice((0, 1, 2, 2))
     sc.add_transition(Transition('a', None, event='go', action="send('tick', delay=%r)" % d_int if d_int else "send('tick')"))
     sc.add_transition(Transition('a', None, event='tick', action='n = n + 1'))
-    it = Interpreter(sc, initial_context=dict(n=0))
+    from ..probes import ticking_clock
+    it = Interpreter(sc, initial_context=dict(n=0), clock=ticking_clock() if ticking else None)
+    if ticking:
+        acc.count('equal_events_cases_on_a_ticking_clock')
     iq, eq = [], []         # model: lists of (due, seq, name) kept in (due, seq) order
     seq = [0]
-    now = 0
     hist = []
     it.execute_once()
+    now = it.time
 
     def put(q, due, name):
         seq[0] += 1
@@ -46,7 +50,7 @@ def equal_events_case(acc, rnd, pid='C05'):
             put(eq, now, 'go')
             hist.append(('queue go', now))
         elif r < 0.6:
-            d = rnd.choice((d_int, d_int, 0, 1, 2))
+            d = rnd.choice((d_int, d_int, 0, 0.125, 0.25) if ticking else (d_int, d_int, 0, 1, 2))
             form = rnd.random()
             if d and form < 0.5:
                 it.queue('tick', delay=d)
@@ -56,17 +60,16 @@ def equal_events_case(acc, rnd, pid='C05'):
                 it.queue('tick')
             put(eq, now + d, 'tick')
             hist.append(('queue tick delay=%r' % d, now))
-        if rnd.random() < 0.5:
-            dt = rnd.choice((1, 1, 2))
+        if rnd.random() < (0.2 if ticking else 0.5):
+            dt = rnd.choice((0.125, 0.25) if ticking else (1, 1, 2))
             it.clock.time += dt
             hist.append(('clock+=%r' % dt,))
-        now_step = it.clock.time
         try:
             step = it.execute_once()
         except Exception as e:      # noqa
             acc.violation(pid + ':unexpected-exception', 'execute_once raised %s: %s' % (type(e).__name__, str(e)[:200]), dict(history=hist))
             return
-        now = now_step
+        now = it.time
         want = None
         if iq and iq[0][0] <= now:
             want = ('InternalEvent',) + iq.pop(0)[2:]
